@@ -41,6 +41,7 @@ func (ds *defaultSpreaderPipeline) spread(ctx context.Context, w io.Writer, root
 
 	go func() {
 		defer func() {
+			verifPoint("sink.close", 0, "")
 			close(errc)
 		}()
 
@@ -58,22 +59,33 @@ func (ds *defaultSpreaderPipeline) spread(ctx context.Context, w io.Writer, root
 
 func (ds *defaultSpreaderPipeline) worker(ctx context.Context, wg *sync.WaitGroup, roots <-chan *Node, errc chan<- error) {
 	defer wg.Done()
+	vid := verifStart("sink")
+	defer verifPoint("sink.exit", vid, "")
 	for {
+		verifPoint("sink.recv.pre", vid, "")
 		select {
 		case <-ctx.Done():
+			verifPoint("sink.recv.ctx", vid, "")
 			return
 		case root, ok := <-roots:
 			if !ok {
+				verifPoint("sink.recv.closed", vid, "")
 				return
 			}
+			verifPoint("sink.recv.post", vid, verifName(root))
 
 			ds.Lock()
+			verifPoint("sink.lock", vid, verifName(root))
 			err := ds.spreadBranch(root)
+			verifPoint("sink.unlock", vid, verifName(root))
 			ds.Unlock()
 			if err != nil {
+				verifPoint("sink.errsend.pre", vid, verifName(root))
 				errc <- err
+				verifPoint("sink.errsend.post", vid, verifName(root))
 				return
 			}
+			verifPoint("sink.done", vid, verifName(root))
 		}
 	}
 }
@@ -121,20 +133,30 @@ func (f *formattedSpreaderPipeline[T]) spread(ctx context.Context, w io.Writer, 
 
 	go func() {
 		defer close(errc)
+		defer verifPoint("sink.close", 0, "")
+		vid := verifStart("sink")
+		defer verifPoint("sink.exit", vid, "")
 
 		encode := f.encode(w)
 	BREAK:
 		for {
+			verifPoint("sink.recv.pre", vid, "")
 			select {
 			case <-ctx.Done():
+				verifPoint("sink.recv.ctx", vid, "")
 				return
 			case root, ok := <-roots:
 				if !ok {
+					verifPoint("sink.recv.closed", vid, "")
 					break BREAK
 				}
+				verifPoint("sink.recv.post", vid, verifName(root))
 				if err := encode(toFormattedNode(root, f.formattedRoot(root.name))); err != nil {
+					verifPoint("sink.errsend.pre", vid, verifName(root))
 					errc <- err
+					verifPoint("sink.errsend.post", vid, verifName(root))
 				}
+				verifPoint("sink.done", vid, verifName(root))
 			}
 		}
 	}()
@@ -157,17 +179,24 @@ func (cs *colorizeSpreaderPipeline) spread(ctx context.Context, w io.Writer, roo
 
 	go func() {
 		defer close(errc)
+		defer verifPoint("sink.close", 0, "")
+		vid := verifStart("sink")
+		defer verifPoint("sink.exit", vid, "")
 
 		bw := bufio.NewWriter(w)
 	BREAK:
 		for {
+			verifPoint("sink.recv.pre", vid, "")
 			select {
 			case <-ctx.Done():
+				verifPoint("sink.recv.ctx", vid, "")
 				return
 			case root, ok := <-roots:
 				if !ok {
+					verifPoint("sink.recv.closed", vid, "")
 					break BREAK
 				}
+				verifPoint("sink.recv.post", vid, verifName(root))
 				cs.fileCounter.reset()
 				cs.dirCounter.reset()
 
@@ -177,14 +206,19 @@ func (cs *colorizeSpreaderPipeline) spread(ctx context.Context, w io.Writer, roo
 						cs.spreadBranch(root),
 						cs.summary()),
 				); err != nil {
+					verifPoint("sink.errsend.pre", vid, verifName(root))
 					errc <- err
+					verifPoint("sink.errsend.post", vid, verifName(root))
 					return
 				}
 			}
 			if err := bw.Flush(); err != nil {
+				verifPoint("sink.errsend.pre", vid, "")
 				errc <- err
+				verifPoint("sink.errsend.post", vid, "")
 				return
 			}
+			verifPoint("sink.done", vid, "")
 		}
 	}()
 
